@@ -4,7 +4,8 @@ Protocol handler for channel H (operation histories on a message object):
   H <msgspec> <op;op;…>
 
   op ::= mti:<hex> | set:<id>:<hex> | mar:<id>:<value> | jd:doc(f(<id>,<value>),…) | upk:<hex>
-       | unf:<id> | ups:<id>:<hex of the path below the id> | pack | ids | json | clone | swap
+       | unf:<id> | ups:<id>:<hex of the path below the id> | upm:<id>:<hex>:<id>:<hex>… (one UnsetFields call)
+       | usb:<id>:<hex tag> (GetField(id).(*Composite).UnsetSubfield(tag)) | pack | ids | json | clone | swap
        | desc | descb
 
 `clone` continues on the clone and keeps the original as "the other message"; `swap`
@@ -58,6 +59,8 @@ def obsStr (spec : MsgSpec) (o : MsgObj) : String :=
 
 inductive HOp where
   | op (o : Op)
+  | unsetPaths (ps : List (Nat × Bytes))
+  | unsetSub (id : Nat) (tag : Tag)
   | descBitmapOnly
   | swap
 
@@ -71,8 +74,21 @@ def docOfTree : Tree → Option (List (Nat × Value))
       | _ => none)
   | _ => none
 
+def parsePairs : List String → Option (List (Nat × Bytes))
+  | [] => some []
+  | id :: h :: rest =>
+    match id.toNat?, parseHexString h, parsePairs rest with
+    | some i, some b, some more => some ((i, b) :: more)
+    | _, _, _ => none
+  | _ => none
+
 def parseOp (s : String) : Option HOp :=
   match s.splitOn ":" with
+  | "upm" :: pairs => (parsePairs pairs).map .unsetPaths
+  | ["usb", id, h] =>
+    match id.toNat?, parseHexString h with
+    | some i, some b => some (.unsetSub i b)
+    | _, _ => none
   | ["pack"] => some (.op .pack)
   | ["ids"] => some (.op .getFields)
   | ["json"] => some (.op .json)
@@ -123,6 +139,12 @@ def runOps (spec : MsgSpec) : List HOp → MsgObj → Option MsgObj → List Str
       | .descBitmapOnly =>
         let r := cur.step spec .describe
         (r.1, other, outStr true r.2)
+      | .unsetPaths ps =>
+        let r := cur.unsetPaths spec ps
+        (r.1, other, statusStr r.2)
+      | .unsetSub id tag =>
+        let r := cur.unsetSubDirect spec id tag
+        (r.1, other, statusStr r.2)
       | .op op =>
         let r := cur.step spec op
         match r.2 with
